@@ -116,23 +116,27 @@ def check_assign(np, sg, layout, helpers, region_names, line_idx):
 
 
 class StubDetector:
-    def __init__(self, np, helpers):
-        self.np, self.helpers = np, helpers
+    def __init__(self, np, helpers, stray=False):
+        self.np, self.helpers, self.stray = np, helpers, stray
 
     def detect(self, img, rot=0):
         np = self.np
         polys = [np.asarray([[10, 10], [110, 10], [110, 110], [10, 110]], dtype=float), np.asarray([[130, 10], [230, 10], [230, 110], [130, 110]], dtype=float)]
         bls = [np.asarray([[15, 30 + 5 * rot], [105, 30 + 5 * rot]], dtype=float), np.asarray([[135, 60 + 5 * rot], [225, 60 + 5 * rot]], dtype=float),
                np.asarray([[15, 80], [105, 82 + rot]], dtype=float)]
+        if self.stray and rot == 0:
+            # the first line the detector reports lies in the margin, outside every region: it is placed nowhere, and the
+            # orientations do not report the same number of lines
+            bls.insert(0, np.asarray([[15, 130], [105, 131]], dtype=float))
         hs = [[8.0, 3.0]] * len(bls)
         return polys, bls, hs, [textline_of(np, self.helpers, b) for b in bls]
 
 
-def check_extractor(np, layout, helpers, pp, detect_regions, multi, merge):
+def check_extractor(np, layout, helpers, pp, detect_regions, multi, merge, stray=False):
     le = pp.LayoutExtractor.__new__(pp.LayoutExtractor)
     le.detect_regions, le.detect_lines, le.multi_orientation, le.merge_lines = detect_regions, True, multi, merge
     le.detect_straight_lines_in_regions = le.adjust_heights = le.adjust_baselines = False
-    le.engine = StubDetector(np, helpers)
+    le.engine = StubDetector(np, helpers, stray)
     pl = layout.PageLayout(id='p', page_size=(150, 260))
     if not detect_regions:
         for k, poly in enumerate(le.engine.detect(None)[0]):
@@ -141,7 +145,7 @@ def check_extractor(np, layout, helpers, pp, detect_regions, multi, merge):
     ids = [l.id for l in pl.lines_iterator()]
     bad = []
     if len(set(ids)) != len(ids):
-        bad.append(('ids-distinct', 'line ids on the page %r (detect_regions=%r, multi_orientation=%r, merge_lines=%r)' % (ids, detect_regions, multi, merge)))
+        bad.append(('ids-distinct', 'line ids on the page %r (detect_regions=%r, multi_orientation=%r, merge_lines=%r, stray line in the margin=%r)' % (ids, detect_regions, multi, merge, stray)))
     want = (3 if multi else 1) * 3
     if not merge and len(ids) != want:
         bad.append(('all-detected-lines-placed', '%d lines on the page, detector produced %d inside regions' % (len(ids), want)))
@@ -223,19 +227,19 @@ def run(ctx):
     fails = []
     n = 0
     import io, contextlib
-    for dr, mo, mg in itertools.product((False, True), repeat=3):
+    for dr, mo, mg, stray in itertools.product((False, True), repeat=4):
         n += 1
         try:
             with contextlib.redirect_stdout(io.StringIO()):
-                bad = check_extractor(np, layout, helpers, pp, dr, mo, mg)
+                bad = check_extractor(np, layout, helpers, pp, dr, mo, mg, stray)
         except Exception as e:
-            bad = [('no-exception', 'LayoutExtractor raised %r (detect_regions=%r multi=%r merge=%r)' % (e, dr, mo, mg))]
+            bad = [('no-exception', 'LayoutExtractor raised %r (detect_regions=%r multi=%r merge=%r stray=%r)' % (e, dr, mo, mg, stray))]
         for clause, detail in bad:
             if not any(f.signature == sig('rt', 'LayoutExtractor.process_page', clause) for f in fails):
                 fails.append(Failure(sig('rt', 'LayoutExtractor.process_page', clause), detail, function='LayoutExtractor.process_page',
-                                     input={'detect_regions': dr, 'multi_orientation': mo, 'merge_lines': mg}, observed=detail, clause=clause))
-    ctx.add_bounded('layout-extractor-options', 'stub detector x detect_regions x multi_orientation x merge_lines', n, n - 1, True,
-                    [{'detect_regions': False, 'multi_orientation': True, 'merge_lines': False}], fails, rule='all 8 option combinations', clause='line and region ids distinct on the page')
+                                     input={'detect_regions': dr, 'multi_orientation': mo, 'merge_lines': mg, 'stray': stray}, observed=detail, clause=clause))
+    ctx.add_bounded('layout-extractor-options', 'stub detector (with / without a first line in the margin that no region takes) x detect_regions x multi_orientation x merge_lines', n, n - 2, True,
+                    [{'detect_regions': False, 'multi_orientation': True, 'merge_lines': False}], fails, rule='all 16 combinations', clause='line and region ids distinct on the page')
     items = bounded.order(plans(thorough), ctx.seed)
     res = bounded.pmap(_chunk, bounded.shard(items, 32))
     seen = set()
@@ -266,7 +270,7 @@ def replay(entry):
         from pero_ocr.core import layout
         from pero_ocr.layout_engines import layout_helpers as helpers
         from pero_ocr.document_ocr import page_parser as pp
-        bad = check_extractor(np, layout, helpers, pp, inp['detect_regions'], inp['multi_orientation'], inp['merge_lines'])
+        bad = check_extractor(np, layout, helpers, pp, inp['detect_regions'], inp['multi_orientation'], inp['merge_lines'], inp.get('stray', False))
     else:
         print('replay: obligation %s has no concrete input; solver output:\n%s' % (entry.get('obligation'), entry.get('solver_output')))
         return 1
